@@ -141,6 +141,36 @@ var c20scenarios = []c20scenario{
 	}},
 }
 
+// public input SHAPES: the message length (and the context length) are public and fixed per scenario; the
+// signing scenarios are repeated for the length classes around every block / buffer / integer-width
+// boundary (a code path entered only for long messages may treat the secret differently)
+func init() {
+	small := func(t bool) [][]byte {
+		all := seedSecrets(false)
+		out := append([][]byte{}, all[:12]...)
+		out = append(out, all[1023])
+		return append(out, all[1024:]...)
+	}
+	for _, l := range []int{0, 1, 63, 64, 65, 111, 112, 127, 128, 129, 255, 256, 1023, 1024, 4095, 4096, 4097, 8192, 65535, 65536, 65537, 1 << 20} {
+		msg := make([]byte, l)
+		for i := range msg {
+			msg[i] = byte(i * 7)
+		}
+		c20scenarios = append(c20scenarios,
+			c20scenario{fmt.Sprintf("Sign-pure, %d-byte message", l), small, func(s []byte) interface{} { return stdKey(s) }, func(s []byte, k interface{}) { ed25519.Sign(k.(ed25519.PrivateKey), msg) }},
+			c20scenario{fmt.Sprintf("Sign-ctx (255-byte context), %d-byte message", l), small, func(s []byte) interface{} { return stdKey(s) }, func(s []byte, k interface{}) {
+				k.(ed25519.PrivateKey).Sign(nil, msg, &ed25519.Options{Context: strings.Repeat("c", 255)})
+			}})
+	}
+	for _, cl := range []int{0, 1, 255} {
+		ctx := strings.Repeat("p", cl)
+		c20scenarios = append(c20scenarios, c20scenario{fmt.Sprintf("Sign-ph, %d-byte context", cl), small, func(s []byte) interface{} { return stdKey(s) }, func(s []byte, k interface{}) {
+			d := sha512.Sum512(c20msg)
+			k.(ed25519.PrivateKey).Sign(nil, d[:], &ed25519.Options{Hash: crypto.SHA512, Context: ctx})
+		}})
+	}
+}
+
 func runTraced(sc *c20scenario, secret []byte, keep int) *rt.Trace {
 	var p interface{}
 	if sc.prep != nil {
